@@ -39,6 +39,8 @@ var c17SMTPVariants = []c17Dec{
 	{"local a = smtp.allow(); local b = smtp.deny(); return a", "allow", 0, ""},
 	// verdicts prepared once, when the script is loaded
 	{"return V451", "deny", 451, "t"},
+	// the text is relayed literally, whatever it contains
+	{"return smtp.deny(554, \"100% spam %d %s\")", "deny", 554, "100% spam %d %s"},
 }
 
 // c17Preamble is put in front of every script: verdicts built at load time.
